@@ -57,19 +57,50 @@ FUNCS = ffi.FUNCTIONS
 VALUE_FUNCS = ["echo_first", "echo_last"] + sorted(CONST)
 
 
-def probe_model(func, stack):
-    """What the probe answers: ('value', val) | ('none',) | ('raise', message)."""
+TAGS = {"A": "", "B": "B:", "C": "C:"}
+SHIFT = {"A": 0, "B": 1000, "C": 2000}
+LAYOUT = {}      # key -> (path, build variant or None); filled by run()/replay() (ffi.install_layout)
+
+
+def probe_model(func, stack, variant="A"):
+    """What the named build of the probe answers: ('value', val) | ('none',) | ('raise', message)."""
     if func == "echo_first":
         return ("value", stack[0]) if stack else ("none",)
     if func == "echo_last":
         return ("value", stack[-1]) if stack else ("none",)
+    if func == "const_int":
+        return ("value", ("int", CONST[func][1] + SHIFT[variant]))
+    if func == "const_str":
+        return ("value", ("str", TAGS[variant] + CONST[func][1]))
     if func in CONST:
         return ("value", CONST[func])
     if func == "no_value":
         return ("none",)
     if func == "raise":
-        return ("raise", RAISE_MSG)
+        return ("raise", TAGS[variant] + RAISE_MSG)
+    if func == "only_in_a" and variant == "A":
+        return ("value", ("int", 11))
+    if func == "only_in_b" and variant == "B":
+        return ("value", ("int", 22))
     raise KeyError(func)
+
+
+def resolve(target, lib):
+    """Library named by a segment -> (path written into call_lib, build variant or None, fault kind or None)."""
+    if target == "probe":
+        return lib, "A", None
+    if target == "missing":
+        return os.path.join(os.path.dirname(lib), "libdoes_not_exist.so"), None, "missing"
+    if target == "notalib":
+        return "not_a_library.so", None, "notalib"
+    if target == "dir":
+        return ".", None, "dir"
+    path, variant = LAYOUT[target]
+    return path, variant, (None if variant else "missing")
+
+
+def has_symbol(func, variant):
+    return func in FUNCS or ffi.ONLY.get(func) == variant
 
 
 # ----------------------------------------------------------------------------- assembling
@@ -153,16 +184,15 @@ def build_program(case, lib):
             instrs.append(make_instr(val, seg.get("forms", [0] * len(seg["push"]))[j]))
             stack.append(val)
         target = seg["lib"]
-        path = {"probe": lib, "missing": os.path.join(os.path.dirname(lib), "libdoes_not_exist.so"),
-                "notalib": "not_a_library.so", "dir": "."}[target]
+        path, variant, fault = resolve(target, lib)
         func = seg["func"]
         plan.append(("call", len(instrs), target, func, list(stack)))
         instrs.append((OP["call_lib"], [path if bare_ok(path) else quote_arg(path),
                                         func if bare_ok(func) else quote_arg(func)]))
-        if target == "probe" and func in FUNCS:
-            r = probe_model(func, stack)
+        if variant and has_symbol(func, variant):
+            r = probe_model(func, stack, variant)
         else:
-            r = ("fault", target if target != "probe" else "missing_symbol")
+            r = ("fault", fault or "missing_symbol")
         if r[0] == "value":
             stack = [r[1]]
         elif r[0] == "none":
@@ -405,7 +435,8 @@ def decide(case, plan, res, trace_text, probe_text, lib):
         if step[0] == "call":
             _, ip, target, func, stack = step
             kc = kinds_class(stack)
-            reaches = target == "probe" and func in FUNCS
+            path, variant, _fault = resolve(target, lib)
+            reaches = bool(variant) and has_symbol(func, variant)
             if ip in oplen_at:
                 cnt["oplen_checks"] += 1
                 if oplen_at[ip] != len(stack):
@@ -420,8 +451,8 @@ def decide(case, plan, res, trace_text, probe_text, lib):
                 bad(kc, "hook_saw_no_call", "call %d (%s) has no L record" % (li, func))
             else:
                 _, llib, lfunc, n, largs = L[li]
-                if llib != lib or lfunc != func:
-                    bad(kc, "wrong_destination", "L record names %r %r, program calls %r %r" % (llib, lfunc, lib, func))
+                if llib != path or lfunc != func:
+                    bad(kc, "wrong_destination", "L record names %r %r, program calls %r %r" % (llib, lfunc, path, func))
                 try:
                     hv = [parse_prim(a) for a in largs]
                 except (ValueError, IndexError, KeyError) as ex:
@@ -438,8 +469,13 @@ def decide(case, plan, res, trace_text, probe_text, lib):
             else:
                 pl = probe_lines[li]
                 pname, _, ptext = pl.partition(" ")
-                if pname != func:
-                    bad(kc, "wrong_function_called", "probe function %r ran, program calls %r" % (pname, func))
+                if pname != TAGS[variant] + func:
+                    if pname.split(":")[-1] == func:
+                        bad(case["class"], "wrong_library_answered",
+                            "call %d names %s (build %s) but the log line is %r: another library served it" % (
+                                li, target, variant, pname))
+                    else:
+                        bad(kc, "wrong_function_called", "probe function %r ran, program calls %r" % (pname, func))
                 try:
                     pv = parse_slice(ptext)
                 except (ValueError, IndexError, KeyError) as ex:
@@ -452,7 +488,7 @@ def decide(case, plan, res, trace_text, probe_text, lib):
                     if li < len(L) and "[" + ", ".join(L[li][4]) + "]" != ptext:
                         bad(kc, "hook_and_probe_disagree", "L args %r, probe %r" % (L[li][4], ptext[:300]))
             # --- result as seen by the hook
-            exp = probe_model(func, stack)
+            exp = probe_model(func, stack, variant)
             rc = "ret/" + func
             if li >= len(R):
                 bad(rc, "no_result_record", "call %d (%s) has no R record" % (li, func))
@@ -525,10 +561,246 @@ def decide(case, plan, res, trace_text, probe_text, lib):
     return problems, cnt
 
 
+# ----------------------------------------------------------------------------- calls at depth (recursion + scopes)
+
+START, MODULE_END = "@@C19-START@@", "@@C19-MODULE-END@@"
+
+
+def build_deep(case, lib):
+    """`__module__` prints START and calls `dive(depth-1)`; `dive(n)` recurses inside an `<if>` scope until n == 0 and
+    there, inside `extra` further nested `<if>` scopes (the outermost optionally a `<while>` scope), pushes the
+    vector and executes the `call_lib`; then `printn *`, sentinel, `ret`.  Returns (bytes, info)."""
+    dp = case["deep"]
+    path, variant, fault = resolve(dp["lib"], lib)
+    func = dp["func"]
+    bottom = []
+    for j, val in enumerate(dp["push"]):
+        bottom.append(make_instr(val, 0))
+    bottom.append((OP["call_lib"], [path if bare_ok(path) else quote_arg(path), func]))
+    bottom += [(OP["printn"], ["*"]), (OP["make_str"], [quote_arg(SENTINEL)]), (OP["printn"], ["*"]), (OP["void"], []),
+               (OP["ret"], [])]
+    opens = []
+    for k in range(dp["extra"]):
+        opens.append((OP["make_bool"], ["true"]))
+        opens.append((OP["while_loop"] if (k == 0 and dp.get("while")) else OP["if_stmt"], ["@END"]))
+    closes = [(OP["done"], [])] * dp["extra"]
+    head = [(OP["arg"], ["0"]), (OP["store"], ["n"]), (OP["load"], ["n"]), (OP["make_int"], ["0"]), (OP["equ"], []),
+            (OP["if_stmt"], ["@REC"])]
+    rec = [(OP["make_bool"], ["true"]), (OP["if_stmt"], ["@END"]), (OP["load"], ["n"]), (OP["make_int"], ["1"]),
+           (OP["bin_op"], ["-"]), (OP["call_self"], []), (OP["void"], []), (OP["done"], [])]
+    tail = [(OP["void"], []), (OP["ret"], [])]
+    dive = head + opens + bottom + closes + [(OP["done"], [])]
+    rec_at = len(dive)
+    dive = dive + rec + tail
+    end_at = len(dive) - 2
+    fixed = []
+    for ip, (opc, args) in enumerate(dive):
+        if args and args[0] == "@REC":
+            args = [str(rec_at - ip)]
+        elif args and args[0] == "@END":
+            args = [str(end_at - ip)]
+        fixed.append((opc, args))
+    module = [(OP["make_str"], [quote_arg(START)]), (OP["printn"], ["*"]), (OP["void"], []),
+              (OP["make_int"], [str(dp["depth"] - 1)]), (OP["call"], ["x.mmm#dive"]), (OP["void"], []),
+              (OP["make_str"], [quote_arg(MODULE_END)]), (OP["printn"], ["*"]), (OP["void"], []), (OP["ret"], [])]
+    prog = assemble(fixed, "dive") + assemble(module, "__module__")
+    if variant and has_symbol(func, variant):
+        exp = probe_model(func, dp["push"], variant)
+    else:
+        exp = ("fault", fault or "missing_symbol")
+    return prog, {"path": path, "variant": variant, "expect": exp, "func": func, "stack": list(dp["push"])}
+
+
+def decide_deep(case, info, res, trace_text, probe_text):
+    problems = []
+    dp = case["deep"]
+    cnt = {"args_compared": 0, "ffi_L": 0, "ffi_R": 0, "probe_records": 0, "instr_events": 0, "oplen_checks": 0,
+           "results_compared": 0, "prints_compared": 0, "stops_checked": 0, "deep_failing_calls": 0,
+           "deep_max_report_lines": 0}
+
+    def bad(cls, dev, detail):
+        problems.append((cls, dev, detail))
+    events, truncated = read_trace(trace_text or "")
+    L = [e for e in events if e[0] == "L"]
+    R = [e for e in events if e[0] == "R"]
+    probe_lines = [l for l in (probe_text or "").split("\n") if l]
+    cnt["instr_events"] = sum(1 for e in events if e[0] == "I")
+    cnt["ffi_L"], cnt["ffi_R"], cnt["probe_records"] = len(L), len(R), len(probe_lines)
+    exp, stack, func = info["expect"], info["stack"], info["func"]
+    cls = case["class"]
+    calls = [k for k, e in enumerate(events) if e[0] == "I" and e[2] == OP["call_lib"]]
+    if len(calls) != 1:
+        bad(cls, "call_not_executed", "%d call_lib instruction events, expected exactly 1" % len(calls))
+    else:
+        cnt["oplen_checks"] += 1
+        if events[calls[0]][3] != len(stack):
+            bad(cls, "operand_stack_length_before_call", "%d operands at the call_lib, %d pushed" % (events[calls[0]][3], len(stack)))
+    reaches = exp[0] != "fault"
+    if reaches:
+        if len(L) != 1 or len(probe_lines) != 1:
+            bad(cls, "probe_not_called", "%d L records, %d probe records, expected 1 each" % (len(L), len(probe_lines)))
+        else:
+            try:
+                hv = [parse_prim(a) for a in L[0][4]]
+                pname, _, ptext = probe_lines[0].partition(" ")
+                pv = parse_slice(ptext)
+                cnt["args_compared"] += 2 * len(stack)
+                if not same_vec(hv, stack):
+                    bad(cls, "hook_saw_different_args", "assembled %s, interpreter passed %s" % (show(stack), show(hv)))
+                if not same_vec(pv, stack):
+                    bad(cls, "probe_saw_different_args", "assembled %s, probe received %s" % (show(stack), show(pv)))
+                if pname != TAGS[info["variant"]] + func:
+                    bad(cls, "wrong_library_answered", "log line %r for %s of build %s" % (pname, func, info["variant"]))
+            except (ValueError, IndexError, KeyError) as ex:
+                bad(cls, "probe_saw_different_args", "unparsable record: %s" % ex)
+        if len(R) == 1:
+            try:
+                got = parse_result(R[0][1])
+                cnt["results_compared"] += 1
+                ok = got[0] == exp[0] and (got[0] == "none" or (got[0] == "raise" and got[1] == exp[1]) or
+                                           (got[0] == "value" and same(got[1], exp[1])))
+                if not ok:
+                    bad(cls, "result_differs", "probe must answer %r, interpreter received %r" % (exp, got))
+            except (ValueError, IndexError, KeyError, TypeError) as ex:
+                bad(cls, "result_differs", "unparsable R record: %s" % ex)
+        else:
+            bad(cls, "no_result_record", "%d R records" % len(R))
+    elif L or probe_lines:
+        bad(cls, "foreign_code_ran", "a call was recorded although the library/symbol is missing")
+    start = printed([("str", START)])
+    if exp[0] in ("value", "none"):
+        after = [exp[1]] if exp[0] == "value" else []
+        want = start + printed(after) + printed(after + [("str", SENTINEL)]) + printed([("str", MODULE_END)])
+        cnt["prints_compared"] += 4
+        if res.cls != "ok":
+            bad(cls, "unexpected_failure", "exit class %s: %s" % (res.cls, res.err[-300:]))
+        if res.out != want:
+            bad(cls, "pushed_value_differs", "stdout %r, expected %r" % (res.out[-300:], want[-300:]))
+    else:
+        cnt["stops_checked"] += 1
+        cnt["deep_failing_calls"] += 1
+        needle = exp[1] if exp[0] == "raise" else FAULT_TEXT[exp[1]]
+        if res.cls == "ok":
+            bad(cls, "error_swallowed", "the program exited normally")
+        elif res.cls != "fail":
+            bad(cls, "wrong_exit_class", "exit class %s (rc %s): %s" % (res.cls, res.rc, res.err[-300:]))
+        if core.BANNER not in res.err:
+            bad(cls, "no_runtime_error_report", "stderr lacks the interpreter banner: %r" % res.err[-300:])
+        if needle not in res.err:
+            bad(cls, "message_missing", "stderr (%d lines) lacks %r; it ends: %r" % (
+                res.err.count("\n"), needle, res.err[-300:]))
+        if exp[0] == "fault" and exp[1] == "missing_symbol" and func not in res.err:
+            bad(cls, "message_missing", "stderr lacks the symbol name %r" % func)
+        if exp[0] == "fault" and exp[1] != "missing_symbol" and os.path.basename(info["path"]) not in res.err:
+            bad(cls, "message_missing", "stderr lacks the library name %r" % os.path.basename(info["path"]))
+        if SENTINEL in res.out or MODULE_END in res.out:
+            bad(cls, "later_instruction_ran", "a sentinel was printed after the failing call")
+        if calls and any(e[0] == "I" for e in events[calls[-1] + 1:]):
+            bad(cls, "later_instruction_ran", "I events follow the failing call_lib")
+        if res.out != start:
+            bad(cls, "output_differs_before_failure", "stdout %r, expected %r" % (res.out[-300:], start))
+        cnt["deep_max_report_lines"] = res.err.count("\n")
+    acts = sum(1 for l in (trace_text or "").split("\n") if l[:2] == "E ")
+    if acts != dp["depth"] + 1 and not truncated:
+        bad(cls, "wrong_call_depth", "%d activations, expected %d" % (acts, dp["depth"] + 1))
+    return problems, cnt
+
+
+def deep_catalogue():
+    cases = []
+    vec = [("str", "raised at the bottom"), ("int", 0), ("float", 2.5)]
+    shapes = [(1, 0, False), (1, 45, True), (10, 0, False), (10, 30, False), (45, 0, False), (45, 3, True),
+              (80, 0, False), (80, 6, False)]
+    forms = [("raise", "probe"), ("raise", "b/plugin"), ("echo_first", "missing"), ("echo_first", "nodir/plugin"),
+             ("no_such_symbol", "probe"), ("only_in_a", "b/plugin"), ("echo_first", "notalib"),
+             ("echo_last", "probe"), ("no_value", "c/plugin"), ("const_str", "b/plugin")]
+    for depth, extra, wh in shapes:
+        for func, lib in forms:
+            live = {"probe": "A", "b/plugin": "B", "c/plugin": "C"}.get(lib)
+            form = ((func if has_symbol(func, live) else "missing_symbol") if live else
+                    {"missing": "missing_library", "nodir": "missing_library", "notalib": "not_a_library"}[lib.split("/")[0]])
+            cases.append({"id": "deep:d%d+%d%s:%s@%s" % (depth, extra, "w" if wh else "", func, lib),
+                          "class": "depth/%s" % form, "last_func": func,
+                          "deep": {"depth": depth, "extra": extra, "while": wh, "push": vec if depth % 2 else vec[:1],
+                                   "func": func, "lib": lib}})
+    return cases
+
+
+def multi_catalogue():
+    """Several builds of the probe under the SAME file name in different directories, under different file names
+    in one directory; alternating multi-call programs; 'present, then missing under the same name' sequences."""
+    cases = []
+    pick = Picker()
+
+    def v(n):
+        return [pick.take(KINDS[(len(cases) + j) % 6]) for j in range(n)]
+    same_name = ["a/plugin", "b/plugin", "c/plugin", "deep/a/plugin"]
+    same_dir = ["same/one", "same/two", "same/three"]
+    fns = ["echo_first", "echo_last", "const_int", "const_str", "no_value"]
+    for group, gname in ((same_name, "same_name"), (same_dir, "same_dir"), (["probe", "a/plugin", "same/two"], "mixed")):
+        for f in fns:
+            for order in ([0, 1], [1, 0], [0, 1, 2], [2, 0, 1], [0, 1, 0, 1], [1, 1, 0, 0]):
+                libs = [group[k % len(group)] for k in order]
+                cases.append(mk("multi:%s:%s:%s" % (gname, f, "".join(map(str, order))), "multi/%s/same_fn" % gname,
+                                [seg(v(2 if k == 0 else 1), f, lib=l) for k, l in enumerate(libs)]))
+        # different function names, then the same names the other way round (README pattern)
+        for f1, f2 in (("const_int", "const_str"), ("no_value", "const_int"), ("const_str", "echo_first")):
+            a, b = group[0], group[1]
+            cases.append(mk("multi:%s:%s/%s:abba" % (gname, f1, f2), "multi/%s/alternating_fns" % gname,
+                            [seg(v(1), f1, lib=a), seg(v(1), f2, lib=b), seg(v(1), f1, lib=b), seg(v(1), f2, lib=a)]))
+        # raise from the second library after a call of the same name went to the first
+        cases.append(mk("multi:%s:raise_after" % gname, "multi/%s/raise" % gname,
+                        [seg(v(1), "const_int", lib=group[0]), seg(v(1), "const_int", lib=group[1]),
+                         seg(v(1), "raise", lib=group[1])]))
+        cases.append(mk("multi:%s:raise_other" % gname, "multi/%s/raise" % gname,
+                        [seg(v(1), "no_value", lib=group[1]), seg(v(1), "raise", lib=group[0])]))
+    # present, then missing under the same file name elsewhere
+    for ok_lib in ("a/plugin", "b/plugin"):
+        for gone in ("nodir/plugin", "empty/plugin"):
+            for f in ("echo_first", "const_int", "no_value"):
+                cases.append(mk("multi:gone:%s>%s:%s" % (ok_lib, gone, f), "multi/present_then_missing_library",
+                                [seg(v(2), f, lib=ok_lib), seg(v(1), f, lib=gone)]))
+                cases.append(mk("multi:gone:%s>%s>%s:%s" % (ok_lib, ok_lib, gone, f), "multi/present_then_missing_library",
+                                [seg(v(1), f, lib=ok_lib), seg(v(1), f, lib=ok_lib), seg(v(1), f, lib=gone)]))
+    cases.append(mk("multi:gone:same/one>same/missing", "multi/present_then_missing_library",
+                    [seg(v(1), "const_int", lib="same/one"), seg(v(1), "const_int", lib="same/missing")]))
+    # existing symbol, then the same symbol name missing in another library
+    for first, then, f in (("a/plugin", "b/plugin", "only_in_a"), ("b/plugin", "a/plugin", "only_in_b"),
+                           ("same/one", "same/two", "only_in_a"), ("probe", "c/plugin", "only_in_a"),
+                           ("same/two", "same/three", "only_in_b")):
+        cases.append(mk("multi:symbol_gone:%s>%s:%s" % (first, then, f), "multi/present_then_missing_symbol",
+                        [seg(v(1), f, lib=first), seg(v(1), f, lib=then)]))
+        cases.append(mk("multi:symbol_gone:%s>%s>%s:%s" % (first, first, then, f), "multi/present_then_missing_symbol",
+                        [seg(v(1), f, lib=first), seg(v(0), f, lib=first), seg(v(2), f, lib=then)]))
+    return cases
+
+
+def random_multi(ctx, n):
+    rng = ctx.rng("multi")
+    live = ["probe", "a/plugin", "b/plugin", "c/plugin", "deep/a/plugin", "same/one", "same/two", "same/three"]
+    gone = ["nodir/plugin", "empty/plugin", "same/missing", "missing"]
+    cases = []
+    for i in range(n):
+        fpool = rng.sample(FUNCS, 2)
+        segs = []
+        for k in range(rng.randint(2, 5)):
+            f = rng.choice(fpool)
+            segs.append(seg([random_value(rng, rng.choice(KINDS)) for _ in range(rng.randint(0, 3))], f, lib=rng.choice(live)))
+            if f == "raise":
+                break
+        if segs[-1]["func"] != "raise" and rng.random() < 0.25:
+            segs.append(seg([], rng.choice(fpool), lib=rng.choice(gone)))
+        cases.append(mk("rndmulti:%d" % i, "multi/random", segs))
+    return cases
+
+
 def run_case(item):
     """Worker: item = (case, lib, valgrind?)."""
     case, lib, vg = item
-    prog, plan = build_program(case, lib)
+    if "deep" in case:
+        prog, plan = build_deep(case, lib)
+    else:
+        prog, plan = build_program(case, lib)
     d = core.case_dir("c19")
     try:
         with open(os.path.join(d, "x.mmm"), "wb") as f:
@@ -538,6 +810,8 @@ def run_case(item):
         trace_p, probe_p = os.path.join(d, "_trace.log"), os.path.join(d, "_probe.log")
         env = {"MSCRIPT_VERIF_TRACE": trace_p, "MSCRIPT_FFI_PROBE_LOG": probe_p, "MSCRIPT_VERIF_TYPED_PRINT": "1"}
         argv = core.ms("execute", "x.mmm")
+        if "deep" in case:
+            argv += ["--stack-size", str(256 << 20)]       # 80 debug-build activations do not fit the default 4 MiB
         vg_log = os.path.join(d, "vg.log")
         if vg:
             argv = ["valgrind", "--error-exitcode=99", "--quiet", "--log-file=" + vg_log] + argv
@@ -560,11 +834,16 @@ def run_case(item):
             res.cls = "fail" if core.BANNER in res.err else "ok"
         if trace_text is None:
             return {"id": case["id"], "inconclusive": "H-TRACE log missing for %s (%s)" % (case["id"], res.cls)}
-        problems, cnt = decide(case, plan, res, trace_text, probe_text, lib)
+        if "deep" in case:
+            problems, cnt = decide_deep(case, plan, res, trace_text, probe_text)
+            nargs = [len(plan["stack"])]
+        else:
+            problems, cnt = decide(case, plan, res, trace_text, probe_text, lib)
+            nargs = [len(s[4]) for s in plan if s[0] == "call"]
         if memcheck is not None:
             problems.append((case["class"], "memcheck_error", memcheck[:600]))
         out = {"id": case["id"], "class": case["class"], "cnt": cnt, "vg": bool(vg), "cls": res.cls,
-               "nargs": [len(s[4]) for s in plan if s[0] == "call"], "problems": problems}
+               "nargs": nargs, "problems": problems}
         if problems or case.get("sample"):
             out["witness"] = {"case": case, "valgrind": bool(vg), "program_hex": prog.hex(),
                               "program_readable": readable(prog), "run": res.brief(),
@@ -707,16 +986,19 @@ def valgrind_sample(ctx, cat, rnd):
     by_id = {c["id"]: c for c in cat}
     first = ["exh:none:echo_first", "exh:int,str:echo_last", "exh:str,str:const_str", "exh:bigint,float:no_value",
              "exh:byte,bool:raise", "fault:missing_library:2", "fault:missing_symbol:no_such_symbol:2",
-             "chain:const_str>echo_first:+2"]
+             "chain:const_str>echo_first:+2", "multi:same_name:const_str:0101", "multi:gone:a/plugin>nodir/plugin:echo_first",
+             "deep:d45+0:raise@probe"]
     picked = [by_id[i] for i in first]
     if rnd:
-        longest = max(rnd, key=lambda c: len(c["segments"][0]["push"]))
+        longest = max(rnd, key=lambda c: len(c["segments"][0]["push"]) if c["id"].startswith("rnd:") else -1)
         picked.append(longest)
     if not ctx.quick:
         rng = ctx.rng("valgrind")
         extra = ["exh:%s:%s" % (k, f) for k, f in (("str", "echo_first"), ("float,float", "const_float"),
                  ("bool,byte", "const_byte"), ("int,int", "const_int"), ("bigint,bigint", "const_bigint"),
                  ("str,int", "const_bool"), ("none", "raise"), ("none", "no_value"), ("none", "const_str"))]
+        extra += ["multi:symbol_gone:a/plugin>b/plugin:only_in_a", "multi:same_dir:echo_last:201",
+                  "deep:d80+6:no_such_symbol@probe", "deep:d10+30:echo_last@probe", "deep:d1+45w:echo_first@missing"]
         extra += ["fault:not_a_library:1", "fault:directory:0", "fault:missing_library:after_call",
                   "fault:missing_symbol:after_call", "chain:echo_last>raise:+2", "chain:no_value>echo_last:+2",
                   "val:str:25:first", "val:str:26:last", "val:bigint:7:first", "val:float:17:last"]
@@ -731,9 +1013,13 @@ def run(ctx):
     out = core.Outcome()
     if not os.path.exists(core.BIN):
         raise core.Inconclusive("no mscript binary at %s" % core.BIN)
-    lib = ffi.build_probe(quiet=True)
-    cat = catalogue()
-    rnd = random_cases(ctx, ctx.n(1500, 8000))
+    libs = ffi.build_variants(quiet=True)
+    lib = libs["A"]
+    LAYOUT.clear()
+    LAYOUT.update(ffi.install_layout(libs))
+    multi, deepc = multi_catalogue(), deep_catalogue()
+    cat = catalogue() + multi + deepc
+    rnd = random_cases(ctx, ctx.n(1500, 8000)) + random_multi(ctx, ctx.n(300, 2500))
     items = [(c, lib, False) for c in cat + rnd]
     have_vg = core.run(["valgrind", "--version"], core.WORK, cpu=10).cls == "ok"
     vg_cases = valgrind_sample(ctx, cat, rnd) if have_vg else []
@@ -764,11 +1050,11 @@ def run(ctx):
             vg_by_class[case["class"]] = vg_by_class.get(case["class"], 0) + 1
         for n in res["nargs"]:
             lengths[n] = lengths.get(n, 0) + 1
-        for s in case["segments"]:
+        for s in case.get("segments", []):
             for pos, (k, _) in enumerate(s["push"]):
                 kinds_at["%d:%s" % (pos, k)] = kinds_at.get("%d:%s" % (pos, k), 0) + 1
-        if any(res["nargs"]) or case["class"].startswith("fault"):
-            out.distinct.add(core.h([case["segments"], vg]))
+        if any(res["nargs"]) or case["class"].startswith("fault") or "deep" in case:
+            out.distinct.add(core.h([case.get("segments") or case["deep"], vg]))
         if "witness" in res and not res["problems"] and len(out.samples) < 3:
             w = res["witness"]
             out.samples.append({"id": case["id"], "program": w["program_readable"], "stdout": w["run"]["out"],
@@ -791,11 +1077,21 @@ def run(ctx):
         "kind_vectors_len_le_2_enumerated": 43, "probe_functions": FUNCS,
         "boundary_values_per_kind": {k: len(v) for k, v in VALUES.items()},
         "catalogue_cases": len(cat), "seeded_cases": len(rnd),
+        "multi_library_cases": len(multi), "library_layout": {k: [os.path.relpath(p, core.WORK), v] for k, (p, v) in LAYOUT.items()},
+        "calls_at_depth_cases": len(deepc),
+        "call_depths(activations+extra scopes)": sorted({"%d+%d" % (c["deep"]["depth"], c["deep"]["extra"]) for c in deepc}),
         "valgrind_runs": vg_runs, "valgrind_runs_by_class": vg_by_class, "valgrind_available": have_vg,
         "probe_library": lib,
     })
     out.exhaustive = False
-    out.rule = ("binary .mmm programs assembled by the harness: push a vector with make_*, `call_lib` a probe function, "
+    out.rule = ("multi-library part: three builds of the probe (plain / B / C, told apart by the tag of their log line, of "
+                "const_str, const_int and of the raised message) installed under the SAME file name in different directories "
+                "and under different names in one directory; 2-4 call programs over them (same function, alternating "
+                "functions), present-then-missing library of the same file name, present-then-missing symbol of the same "
+                "name; per call the library that was named must be the one that logged and answered.  Depth part: the "
+                "failing / succeeding call_lib at the bottom of a recursion of 1, 10, 45, 80 activations with up to 45 "
+                "extra <if>/<while> scopes; the message must be carried at every depth.  Flat part: "
+                "binary .mmm programs assembled by the harness: push a vector with make_*, `call_lib` a probe function, "
                 "`printn *`, sentinel.  Deterministic part: all 43 kind vectors of length <= 2 x all %d probe functions "
                 "(return forms: value of each kind / echoed argument / no value / raised error), every boundary value of "
                 "every kind alone and in second position, operand spelling variants, two-call chains (the pushed result "
@@ -813,6 +1109,10 @@ def run(ctx):
         "are outside the quantifier",
         "NUL cannot occur inside a bytecode argument (record terminator), so strings are NUL-free",
         "valgrind memcheck is run on a sample of every class only (cost ~5 s per run)",
+        "programs that recurse (depth family) run with `--stack-size 268435456`: 80 activations of the debug build do not "
+        "fit the default 4 MiB interpreter stack (a stack overflow there is not what C19 is about)",
+        "the tagged probe builds differ from the plain one only in the tag of their log line / const_str / raised message "
+        "and in const_int (cargo features variant_b / variant_c of /verif/ffi_probe)",
     ]
     if not have_vg:
         out.inconclusive.append("valgrind not available: the memcheck lane did not run")
@@ -827,9 +1127,14 @@ def replay(path):
         case = json.load(f)
     w = case["witness"]
     c = w["case"]
-    for s in c["segments"]:
+    for s in c.get("segments", []):
         s["push"] = [tuple(v) for v in s["push"]]
-    lib = ffi.build_probe(quiet=True)
+    if "deep" in c:
+        c["deep"]["push"] = [tuple(v) for v in c["deep"]["push"]]
+    libs = ffi.build_variants(quiet=True)
+    lib = libs["A"]
+    LAYOUT.clear()
+    LAYOUT.update(ffi.install_layout(libs))
     res = run_case((c, lib, bool(w.get("valgrind"))))
     print(json.dumps({k: v for k, v in res.items() if k != "witness"}, indent=1, default=str, ensure_ascii=False))
     return 1 if res.get("problems") else 0
